@@ -57,22 +57,12 @@ def base_objects(rng, nsecrets=5):
     return objs
 
 
-def shares_timeout_key(objs, k):
-    """the pinned registry keys its timeouts on (secret prefix, phantom): two transports of one secret on one
-    phantom collide (C08's candidate); histories here never expire such a registration"""
-    o = objs[k]
-    return any(j != k and p["secret"] == o["secret"] and p["phantom"] == o["phantom"] and p["transport"] != o["transport"]
-               for j, p in enumerate(objs))
-
-
 def gen_history(rng, objs, stages=None):
     """interleaved life cycles: each object is driven to a random stage"""
     per = []
     for k, o in enumerate(objs):
         st = rng.choice(["never", "tracked", "valid", "valid", "valid", "valid2", "expired", "expired_tracked",
                          "expired_valid", "unval_expired"]) if stages is None else stages[k]
-        if shares_timeout_key(objs, k) and "expired" in st:
-            st = "valid"
         seq = {"never": [], "tracked": ["track"], "valid": ["track", "validate"], "valid2": ["validate", "track"],
                "expired": ["track", "validate", "expire"], "expired_tracked": ["validate", "expire", "track"],
                "expired_valid": ["track", "validate", "expire", "validate"], "unval_expired": ["track", "expire"]}[st]
